@@ -1,13 +1,13 @@
 (** Monitor soundness: the executable monitors of Model/AdapterCheck.v (evaluated on the IMPLEMENTATION's
     traces by every run) accept what the MODEL does — so a monitor failure on a trace on which model and
     implementation agree is impossible, and the monitors state consequences of the theorems, not something
-    stronger.  Proved: the pure-hook monitor (kinds 11-13) and the comparison (kinds 1-2) on every receipt;
+    stronger.  Proved: the pure-hook monitor (kinds 11-14) and the comparison (kinds 1-2) on every receipt;
     of the application monitor the supply part (kind 44) and the atomicity part (kind 41) on every
     transaction; the attribution part (kind 42) is in Proofs/AdapterCheckAttr.v.  NOT proved: kind 43 (exact
     effect on the modelled native state) — validated on every run instead (a model step that failed it
     would show as a monitor failure on a trace where model = implementation). *)
 From Teleport Require Import Base.Bytes Base.Outcome Model.Adapter Model.AdapterEvm Model.AdapterNative Model.AdapterCheck
-  Proofs.Adapter Proofs.AdapterNative.
+  Proofs.Adapter Proofs.AdapterAbi Proofs.AdapterFields Proofs.AdapterNative.
 From Coq Require Import Lia ZArith.
 Local Open Scope Z_scope.
 
@@ -167,7 +167,7 @@ Section HookSound.
     run_items (list msg) exec (filter_map (classify h) logs) s = (r, ms) ->
     exists ml1 rest ms1,
       ms = s ++ ms1 /\ filter (matching h) logs = ml1 ++ rest /\
-      Forall2 (fun l m => exists h', classify h' l = Some (Ok m)) ml1 ms1 /\ (r = Ok tt -> rest = []).
+      Forall2 (fun l m => classify h l = Some (Ok m)) ml1 ms1 /\ (r = Ok tt -> rest = []).
   Proof.
     induction logs as [|l logs IH]; intros s r ms H.
     - cbn in H. inversion H; subst. exists [], [], []. rewrite app_nil_r. repeat split; constructor.
@@ -177,7 +177,7 @@ Section HookSound.
         cbn [run_items] in H. unfold exec, rec_exec in H.
         assert (Stop : forall x, (x, s) = (r, ms) -> x <> Ok tt ->
                   exists ml1 rest ms1, ms = s ++ ms1 /\ l :: filter (matching h) logs = ml1 ++ rest /\
-                    Forall2 (fun l m => exists h', classify h' l = Some (Ok m)) ml1 ms1 /\ (r = Ok tt -> rest = [])).
+                    Forall2 (fun l m => classify h l = Some (Ok m)) ml1 ms1 /\ (r = Ok tt -> rest = [])).
         { intros x E N. inversion E; subst. exists [], (l :: filter (matching h) logs), [].
           rewrite app_nil_r. repeat split; [constructor | intro; contradiction]. }
         destruct fail as [k|].
@@ -185,12 +185,12 @@ Section HookSound.
           destruct (IH _ _ _ H) as [ml1 [rest [ms1 [E1 [E2 [F R]]]]]].
           exists (l :: ml1), rest, (m :: ms1). rewrite E2. repeat split.
           -- rewrite E1, <- app_assoc. reflexivity.
-          -- constructor; [exists h; exact C | exact F].
+          -- constructor; [exact C | exact F].
           -- exact R.
         * destruct (IH _ _ _ H) as [ml1 [rest [ms1 [E1 [E2 [F R]]]]]].
           exists (l :: ml1), rest, (m :: ms1). rewrite E2. repeat split.
           -- rewrite E1, <- app_assoc. reflexivity.
-          -- constructor; [exists h; exact C | exact F].
+          -- constructor; [exact C | exact F].
           -- exact R.
       + (* the handler fails before the router *)
         cbn [run_items] in H. inversion H; subst.
@@ -205,39 +205,160 @@ Section HookSound.
   Qed.
 
   (** any list of hooks *)
+  Lemma Forall2_pair h (ml : list log) (ms : list msg) :
+    Forall2 (fun l m => classify h l = Some (Ok m)) ml ms ->
+    Forall2 (fun (hl : hkind * log) m => classify (fst hl) (snd hl) = Some (Ok m)) (map (pair h) ml) ms.
+  Proof. induction 1; cbn; constructor; assumption. Qed.
+
+  (** any list of hooks *)
   Lemma run_hooks hs : forall logs s r ms,
     run_items (list msg) exec (flat_map (fun h => filter_map (classify h) logs) hs) s = (r, ms) ->
     exists ml1 rest ms1,
-      ms = s ++ ms1 /\ flat_map (fun h => filter (matching h) logs) hs = ml1 ++ rest /\
-      Forall2 (fun l m => exists h', classify h' l = Some (Ok m)) ml1 ms1 /\ (r = Ok tt -> rest = []).
+      ms = s ++ ms1 /\ flat_map (fun h => map (pair h) (filter (matching h) logs)) hs = ml1 ++ rest /\
+      Forall2 (fun (hl : hkind * log) m => classify (fst hl) (snd hl) = Some (Ok m)) ml1 ms1 /\ (r = Ok tt -> rest = []).
   Proof.
     induction hs as [|h hs IH]; intros logs s r ms H.
     - cbn in H. inversion H; subst. exists [], [], []. rewrite app_nil_r. repeat split; constructor.
     - cbn [flat_map] in *. rewrite run_items_app in H.
       destruct (run_items (list msg) exec (filter_map (classify h) logs) s) as [r1 s1] eqn:R1.
       destruct (run_one_hook h logs s r1 s1 R1) as [mlA [restA [msA [EA1 [EA2 [FA RA]]]]]].
+      apply Forall2_pair in FA.
       destruct r1 as [[]| |].
       + specialize (RA eq_refl). subst restA. rewrite app_nil_r in EA2.
         destruct (IH _ _ _ _ H) as [mlB [restB [msB [EB1 [EB2 [FB RB]]]]]].
-        exists (mlA ++ mlB), restB, (msA ++ msB). repeat split.
+        exists (map (pair h) mlA ++ mlB), restB, (msA ++ msB). repeat split.
         * rewrite EB1, EA1, <- app_assoc. reflexivity.
         * rewrite EA2, EB2, app_assoc. reflexivity.
         * apply Forall2_app; assumption.
         * exact RB.
-      + inversion H; subst. exists mlA, (restA ++ flat_map (fun h0 => filter (matching h0) logs) hs), msA.
-        repeat split; [rewrite EA2, app_assoc; reflexivity | exact FA | discriminate].
-      + inversion H; subst. exists mlA, (restA ++ flat_map (fun h0 => filter (matching h0) logs) hs), msA.
-        repeat split; [rewrite EA2, app_assoc; reflexivity | exact FA | discriminate].
+      + inversion H; subst.
+        exists (map (pair h) mlA), (map (pair h) restA ++ flat_map (fun h0 => map (pair h0) (filter (matching h0) logs)) hs), msA.
+        repeat split; [rewrite EA2, map_app, app_assoc; reflexivity | exact FA | discriminate].
+      + inversion H; subst.
+        exists (map (pair h) mlA), (map (pair h) restA ++ flat_map (fun h0 => map (pair h0) (filter (matching h0) logs)) hs), msA.
+        repeat split; [rewrite EA2, map_app, app_assoc; reflexivity | exact FA | discriminate].
   Qed.
 End HookSound.
 
 Lemma signers_ok_prefix ml1 ms1 rest :
-  Forall2 (fun l m => exists h', classify h' l = Some (Ok m)) ml1 ms1 -> signers_ok (ml1 ++ rest) (map scale_msg ms1) = true.
+  Forall2 (fun (hl : hkind * log) m => classify (fst hl) (snd hl) = Some (Ok m)) ml1 ms1 ->
+  signers_ok (ml1 ++ rest) (map scale_msg ms1) = true.
 Proof.
-  induction 1 as [|l m ml1 ms1 [h' C] F IH]; cbn [app map signers_ok].
+  induction 1 as [|[h l] m ml1 ms1 C F IH]; cbn [app map signers_ok].
   - destruct rest; reflexivity.
-  - rewrite IH, andb_true_r. destruct (32 <=? length (l_data l))%nat eqn:L; [|reflexivity].
-    apply Nat.leb_le in L. rewrite scale_signer, (classified_signer h' l m C L). apply bytes_eqb_refl.
+  - rewrite IH, andb_true_r. cbn [fst snd] in *. destruct (32 <=? length (l_data l))%nat eqn:L; [|reflexivity].
+    apply Nat.leb_le in L. rewrite scale_signer, (classified_signer h l m C L). apply bytes_eqb_refl.
+Qed.
+
+(** ** verbatim fields (kind 14) *)
+
+Lemma be_N_bound b : (be_N b < 256 ^ N.of_nat (length b))%N.
+Proof.
+  induction b as [|x b IH] using rev_ind; [cbn; lia|].
+  rewrite be_N_snoc, app_length. cbn [length]. replace (N.of_nat (length b + 1)) with (N.succ (N.of_nat (length b))) by lia.
+  rewrite N.pow_succ_r'. pose proof (Byte.to_N_bounded x). lia.
+Qed.
+
+Lemma be_N_short b k : (length b <= k)%nat -> (be_N b < 256 ^ N.of_nat k)%N.
+Proof.
+  intro L. eapply N.lt_le_trans; [apply be_N_bound|]. apply N.pow_le_mono_r; lia.
+Qed.
+
+Lemma slice_len d i n : (length (slice d i n) <= N.to_nat n)%nat.
+Proof. unfold slice. apply firstn_le_length. Qed.
+
+Lemma word_at_len d i w : word_at d i = Some w -> (length w <= 32)%nat.
+Proof. unfold word_at. destruct (_ <=? _)%N; [|discriminate]. intros [= <-]. apply (slice_len d i 32). Qed.
+
+Lemma skipn_len {A} k (l : list A) n : (length l <= n)%nat -> (length (skipn k l) <= n - k)%nat.
+Proof. intro L. rewrite skipn_length. lia. Qed.
+
+Lemma dec_u32_bound w : (length w <= 32)%nat -> (dec_u32 w < 2 ^ 32)%N.
+Proof. intro L. unfold dec_u32. change (2 ^ 32)%N with (256 ^ N.of_nat 4)%N. apply be_N_short. apply (skipn_len 28 w 32 L). Qed.
+
+Lemma dec_u64_bound w : (length w <= 32)%nat -> (dec_u64 w < 2 ^ 64)%N.
+Proof. intro L. unfold dec_u64. change (2 ^ 64)%N with (256 ^ N.of_nat 8)%N. apply be_N_short. apply (skipn_len 24 w 32 L). Qed.
+
+Lemma dec_opt_elems_range d' : forall k j os, dec_opt_elems d' k j = Some os -> Forall opt_in_range os.
+Proof.
+  induction k as [|k IH]; intros j os H; cbn [dec_opt_elems] in H.
+  - inversion H; constructor.
+  - destruct (blen d' <? 64 * j + 32)%N; [discriminate|].
+    destruct (blen (skipn (N.to_nat (64 * j)) d') <? 64)%N; [discriminate|].
+    destruct (dec_opt_elems d' k (j + 1)) as [r|] eqn:E; [|discriminate]. inversion H; subst.
+    constructor; [|eapply IH; eauto]. split; cbn [fst snd].
+    + apply dec_u32_bound. apply (slice_len _ 0 32).
+    + apply dec_u64_bound. apply (slice_len _ 32 32).
+Qed.
+
+(** what the decoder returns is within the Go types' ranges *)
+Definition ev_in_range (ev : event) : Prop :=
+  match ev with
+  | EVoted _ _ opt => (opt < 2 ^ 32)%N
+  | EVotedW _ _ os => Forall opt_in_range os
+  | _ => True
+  end.
+
+Lemma unpack_range k d ev : unpack_event k d = Some ev -> ev_in_range ev.
+Proof.
+  unfold unpack_event. intro H.
+  destruct k;
+    repeat match type of H with
+           | match ?x with _ => _ end = Some _ => let E := fresh "E" in destruct x eqn:E; try discriminate
+           end; inversion H; subst; cbn [ev_in_range]; try exact I.
+  - apply dec_u32_bound. eapply word_at_len; eauto.
+  - unfold dec_opts in *.
+    repeat match goal with
+           | E : match ?x with _ => _ end = Some _ |- _ => let E' := fresh "E" in destruct x eqn:E'; try discriminate
+           end.
+    eapply dec_opt_elems_range; eauto.
+Qed.
+
+Lemma parse_range k n d ev : parse_log k n d = Some ev -> ev_in_range ev.
+Proof.
+  unfold parse_log. destruct d as [|b0 d'].
+  - destruct (Nat.eqb n 1); [|discriminate]. intros [= <-]. destruct k; cbn; try exact I; try lia. constructor.
+  - destruct (unpack_event k (b0 :: d')) as [e|] eqn:U; [|discriminate].
+    destruct (Nat.eqb n 1); [|discriminate]. intros [= <-]. eapply unpack_range; eauto.
+Qed.
+
+Lemma list_eqb_map_refl os :
+  list_eqb (pair_eqb Z.eqb Z.eqb)
+    (map (fun ow : Z * Z => (fst ow, snd ow * dec16)) (map (fun ow : N * N => (Z.of_N (fst ow), Z.of_N (snd ow))) os))
+    (map (fun ow : N * N => (Z.of_N (fst ow), Z.of_N (snd ow) * dec16)) os) = true.
+Proof.
+  induction os as [|ow os IH]; [reflexivity|]. cbn [map list_eqb]. rewrite IH, andb_true_r.
+  unfold pair_eqb. cbn [fst snd]. rewrite !Z.eqb_refl. reflexivity.
+Qed.
+
+(** a message the handler submits for an in-range event carries the event's fields verbatim *)
+Lemma verbatim_of_item ev m : item_of_event ev = Ok m -> ev_in_range ev -> verbatim ev (scale_msg m) = true.
+Proof.
+  intros H R. pose proof (item_fields_verbatim ev m H) as V.
+  destruct ev as [d v a | d v a | d s t a | d v | d pid opt | d pid os]; cbn [ev_in_range] in R.
+  - destruct V as [x [-> [-> _]]]. cbn. rewrite !bytes_eqb_refl, Z.eqb_refl. reflexivity.
+  - destruct V as [x [-> [-> _]]]. cbn. rewrite !bytes_eqb_refl, Z.eqb_refl. reflexivity.
+  - destruct V as [x [-> [-> _]]]. cbn. rewrite !bytes_eqb_refl, Z.eqb_refl. reflexivity.
+  - destruct V as [-> _]. cbn. rewrite !bytes_eqb_refl. reflexivity.
+  - destruct (V R) as [-> _]. cbn. rewrite bytes_eqb_refl, N.eqb_refl, Z.eqb_refl. reflexivity.
+  - destruct (V R) as [-> _]. cbn [scale_msg verbatim]. rewrite bytes_eqb_refl, N.eqb_refl. cbn [andb]. apply list_eqb_map_refl.
+Qed.
+
+Lemma classified_fields h l m : classify h l = Some (Ok m) -> fields_ok (h, l) (scale_msg m) = true.
+Proof.
+  unfold classify, fields_ok. cbn [fst snd]. destruct (bytes_eqb (l_addr l) (sys_addr h)); [|discriminate].
+  destruct (l_topics l) as [|t0 ts]; [discriminate|]. destruct (handler_of h t0) as [k|]; [|discriminate].
+  destruct (parse_log k (length (t0 :: ts)) (l_data l)) as [ev|] eqn:P; [|discriminate].
+  intros [= H]. apply verbatim_of_item; [exact H | eapply parse_range; eauto].
+Qed.
+
+Lemma fields_ok_prefix ml1 ms1 rest :
+  Forall2 (fun (hl : hkind * log) m => classify (fst hl) (snd hl) = Some (Ok m)) ml1 ms1 ->
+  all_fields_ok (ml1 ++ rest) (map scale_msg ms1) = true.
+Proof.
+  induction 1 as [|[h l] m ml1 ms1 C F IH]; cbn [app map all_fields_ok].
+  - destruct rest; reflexivity.
+  - rewrite IH, andb_true_r. apply classified_fields. exact C.
 Qed.
 
 Lemma hook_model_items w logs f :
@@ -275,8 +396,9 @@ Proof.
     replace (length ml1 + length rest <? length ms1)%nat with false by (symmetry; apply Nat.ltb_ge; lia).
     destruct (Nat.eqb (oclass r) 0) eqn:O.
     + apply Nat.eqb_eq in O. rewrite (Rk (oclass_ok_unit r O)), Nat.add_0_r, L, Nat.eqb_refl. cbn [negb andb].
-      rewrite app_nil_r. pose proof (signers_ok_prefix ml1 ms1 [] F) as S. rewrite app_nil_r in S. rewrite S. reflexivity.
-    + cbn [andb]. rewrite (signers_ok_prefix ml1 ms1 rest F). reflexivity.
+      rewrite app_nil_r. pose proof (signers_ok_prefix ml1 ms1 [] F) as S. rewrite app_nil_r in S. rewrite S.
+      pose proof (fields_ok_prefix ml1 ms1 [] F) as S2. rewrite app_nil_r in S2. rewrite S2. reflexivity.
+    + cbn [andb]. rewrite (signers_ok_prefix ml1 ms1 rest F), (fields_ok_prefix ml1 ms1 rest F). reflexivity.
   - unfold cmp_hcase, model_hcase. cbn [hc_class hc_msgs hc_den_ok].
     match goal with |- context [hook_model ?c] => replace (hook_model c) with
       (hook_model {| hc_which := w; hc_logs := logs; hc_fail_at := f; hc_class := 0; hc_msgs := []; hc_den_ok := true |}) by reflexivity end.
